@@ -126,6 +126,8 @@ def run_case(ctx, k, rng):
             if len(X):
                 dpp = d(X, X[rng.permutation(len(X))])
                 ctx.check(kind + ": reorder=>0", abs(dpp) <= (0 if kind == "bn" else tol(X, X)), got=dpp)
+                dself = d(X, X)                      # the very same object on both sides
+                ctx.check(kind + ": the same array as both arguments => 0", abs(dself) <= (0 if kind == "bn" else tol(X, X)), got=dself)
             # diagonal points on either side
             na, nb = int(rng.integers(0, 6)), int(rng.integers(1, 6))
             ta, tb = rng.uniform(-sc, sc, na), rng.uniform(-sc, sc, nb)
